@@ -231,6 +231,9 @@ func propC02Cut(c c02Case, o *Outcome) *Outcome {
 		for _, abrupt := range []bool{false, true} {
 			o.Sub++
 			obs := runScript(s, c.Carrier, carrierOpts{WrapConn: func(nc net.Conn) net.Conn { return &cutConn{Conn: nc, remaining: n, abrupt: abrupt} }})
+			if obs.HandlerRuns > 1 {
+				return o.failf("%s/%s: reply cut after %d bytes (abrupt=%v): one call made the handler run %d times (the request was delivered more than once)", c.Carrier, s.Kind, n, abrupt, obs.HandlerRuns)
+			}
 			if len(obs.Panics) > 0 {
 				o.Observed = obs
 				return o.failf("reply cut at byte %d of %d (abrupt=%v): panic %s", n, total, abrupt, obs.Panics[0])
